@@ -44,6 +44,8 @@ class ArcEdgeBase(Edge, abc.ABC):
             arm_1 = self.vertex_1.position - self.third_point.position
             arm_2 = self.vertex_2.position - self.third_point.position
 
-            return abs(f.norm(np.cross(arm_1, arm_2))) > constants.TOL
+            # (compare the sine of the angle between arms and not the size
+            # of their cross product or small arcs would be taken for straight lines)
+            return f.norm(np.cross(arm_1, arm_2)) > constants.TOL * f.norm(arm_1) * f.norm(arm_2)
 
         return False
